@@ -1,6 +1,8 @@
 package c13
 
 import (
+	"context"
+	"errors"
 	"fmt"
 	"os"
 	"path/filepath"
@@ -140,8 +142,15 @@ type point struct {
 
 func isBcast(k byte) bool { return k == 'P' || k == 'V' || k == 'C' }
 
-// classify lists every crash point of the uncrashed run: before and after each of the E effects,
-// plus an orderly stop before every script position.
+// classify lists every stop point of the uncrashed run:
+//   - a hard kill before and after each of the E effects;
+//   - an orderly shutdown (context cancelled, Run returns, Close) while the driver is idle, before
+//     every script position;
+//   - an orderly shutdown requested in the middle of a call: before each effect, and after the last
+//     effect of each call ("after effect k" and "before effect k+1" of one call are the same history);
+//     when a commit callback is still entered afterwards, both outcomes of the hand-over;
+//   - per commit callback: the listener holds the hand-over and the shutdown arrives while it is
+//     blocked; the block writer reports a persist error (Run returns an error by itself).
 func classify(base *rec, nInputs int) []point {
 	eff := base.effects
 	var pts []point
@@ -177,7 +186,55 @@ func classify(base *rec, nInputs int) []point {
 	for pos := 0; pos <= nInputs; pos++ {
 		pts = append(pts, point{spec: crashSpec{graceful: true, gracefulAt: pos}})
 	}
+	// a commit callback the driver still enters once its context is cancelled at effect index `from`:
+	// one of the same call, or (replay does not look at the context) any later one of the replay
+	commitFollows := func(from int, after bool) bool {
+		lo := from
+		if after {
+			lo = from + 1
+		}
+		for j := lo; j < len(eff); j++ {
+			if eff[j].kind == 'O' && (eff[j].call == eff[from].call || (eff[from].replay && eff[j].replay)) {
+				return true
+			}
+		}
+		return false
+	}
+	for i := range eff {
+		k := i + 1
+		lastOfCall := i == len(eff)-1 || eff[i+1].call != eff[i].call
+		for _, after := range []bool{false, true} {
+			if after && !lastOfCall {
+				continue
+			}
+			var nt []string
+			prop := eff[i].propBef
+			if after {
+				prop = eff[i].propAft
+			}
+			if prop {
+				nt = append(nt, "while-proposer")
+			}
+			if commitFollows(i, after) {
+				for _, persists := range []bool{false, true} {
+					pts = append(pts, point{spec: crashSpec{k: k, after: after, kind: stopCancel, cancelPersists: persists},
+						nt: append(append([]string{}, nt...), "shutdown-before-commit-callback")})
+				}
+				continue
+			}
+			pts = append(pts, point{spec: crashSpec{k: k, after: after, kind: stopCancel}, nt: nt})
+		}
+		if eff[i].kind == 'O' {
+			pts = append(pts, point{spec: crashSpec{k: k, kind: stopHold}, nt: []string{"shutdown-inside-commit-callback"}})
+			pts = append(pts, point{spec: crashSpec{k: k, kind: stopFail}, nt: []string{"failed-commit"}})
+		}
+	}
 	return pts
+}
+
+// commitStop: the lifetime ends inside a commit callback that does not persist the block.
+func (p point) commitStop() bool {
+	return !p.spec.graceful && (p.spec.kind == stopHold || p.spec.kind == stopFail)
 }
 
 // ---------------------------------------------------------------------------------------------
@@ -255,7 +312,7 @@ func (ck *checker) describe() string {
 
 func describeRun(name string, r *rec) string {
 	var b strings.Builder
-	fmt.Fprintf(&b, "--- %s: start height %d, incarnation %d, crash: %s\n", name, r.cfg.startH, r.cfg.inc, r.cfg.crash)
+	fmt.Fprintf(&b, "--- %s: start height %d, incarnation %d, stop: %s; Run returned %v, blocks persisted %d\n", name, r.cfg.startH, r.cfg.inc, r.cfg.crash, r.runErr, r.persistedCommits())
 	ci := -1
 	for i, e := range r.effects {
 		for ci < e.call {
@@ -263,7 +320,7 @@ func describeRun(name string, r *rec) string {
 			c := r.calls[ci]
 			fmt.Fprintf(&b, "      call%-3d %s%s  => %s\n", ci, map[bool]string{true: "replay ", false: ""}[c.replay], c.desc, strings.Join(c.acts, " | "))
 		}
-		fmt.Fprintf(&b, "  e%-3d %c %s\n", i+1, e.kind, e.desc)
+		fmt.Fprintf(&b, "  e%-3d %c %s%s\n", i+1, e.kind, e.desc, e.note)
 	}
 	for ci++; ci < len(r.calls); ci++ {
 		c := r.calls[ci]
@@ -284,7 +341,20 @@ func (ck *checker) healthy(name string, r *rec, ctx func() string) {
 		ck.fail("wal-error", fmt.Sprintf("%s: log store errors %v\n%s", name, r.storeErrs, ctx()))
 	}
 	if r.runErr != nil && !r.crashed {
-		ck.fail("driver-error", fmt.Sprintf("%s: Run returned %v\n%s", name, r.runErr, ctx()))
+		// an error from Run is expected only where the harness caused it: the context error when the
+		// shutdown hit a commit callback, the commit listener's failure when the block was not persisted
+		expected := false
+		if c := r.cfg.crash; r.stopped && c != nil && !c.graceful {
+			switch c.kind {
+			case stopCancel, stopHold:
+				expected = errors.Is(r.runErr, context.Canceled)
+			case stopFail:
+				expected = true
+			}
+		}
+		if !expected {
+			ck.fail("driver-error", fmt.Sprintf("%s: Run returned %v\n%s", name, r.runErr, ctx()))
+		}
 	}
 	if len(r.unlogged) > 0 && os.Getenv("C13_DEBUG_SKIP_LOGGED_BEFORE_VISIBLE") == "" { // knob for sensitivity experiments only
 		ck.fail("logged-before-visible", fmt.Sprintf("%s: %s\n%s", name, strings.Join(r.unlogged, "\n"), ctx()))
@@ -305,7 +375,7 @@ func (ck *checker) healthy(name string, r *rec, ctx func() string) {
 		}
 	}
 	want := r.fedDesc
-	if r.crashed && len(live) < len(want) { // the message in flight at the kill
+	if r.cut() && len(live) < len(want) { // the message in flight at the kill / shutdown
 		want = want[:len(live)]
 	}
 	if strings.Join(live, "\n") != strings.Join(want, "\n") {
@@ -361,10 +431,16 @@ func visOf(r *rec) []string {
 	return out
 }
 
+// checkCommits: the commit callback is called for (height of the block store)+1, where the block
+// store advances exactly when a callback returned true.
 func (ck *checker) checkCommits(name string, r *rec, ctx func() string) {
+	next := r.cfg.startH
 	for i, cm := range r.commits {
-		if cm.h != r.cfg.startH+types.Height(i) {
-			ck.fail("commit-sequence", fmt.Sprintf("%s: commit #%d is for height %d, the process started at height %d\n%s", name, i, cm.h, r.cfg.startH, ctx()))
+		if cm.h != next {
+			ck.fail("commit-sequence", fmt.Sprintf("%s: commit #%d is for height %d, the block store is at height %d (the process started at height %d)\n%s", name, i, cm.h, next-1, r.cfg.startH, ctx()))
+		}
+		if cm.persisted {
+			next++
 		}
 	}
 }
@@ -429,7 +505,7 @@ func (ck *checker) labelBaseline() {
 	}
 }
 
-const propRule = "drawn role/timer tables and input script (proposals, votes, duplicates, equivocation, early next-height and overtaking messages; 1-3 heights) run uncrashed on the real driver+state machine+walstore, then killed before and after effects (quick: <=10 drawn points per case, half of them non-trivial; thorough: every point) plus orderly stops, restarted on the crash image and fed the rest of the script (delivered-but-not-durable inputs re-delivered or lost by draw); in 30% of the experiments (thorough: all) the recovering process is killed too, at a drawn effect, and recovered again; non-trivial = kill between a Flush and the broadcast/commit it covers, between OnCommit and the prune flush, while the node is proposer of its current round, or second kill during replay"
+const propRule = "drawn role/timer tables and input script (proposals, votes, duplicates, equivocation, early next-height and overtaking messages; 1-3 heights) run unstopped on the real driver+state machine+walstore, then stopped at enumerated points (quick: <=10 drawn points per case, one of them inside a commit callback when the script commits, four more non-trivial; thorough: every point): hard kill before/after each effect (crash image); orderly shutdown = context cancelled while idle before a script position, or in the middle of a call before each effect / after the last effect of a call, Run returns and Close() flushes (a commit callback entered after the cancel persists or not, both); commit listener holds the hand-over and the shutdown arrives while the callback is blocked (OnCommit false, block not persisted); block writer reports a persist error (OnCommit false, Run returns an error, Close()). The process is restarted on the resulting directory at (blocks persisted by the harness's block store)+1 and fed the rest of the script (delivered-but-not-durable inputs re-delivered or lost by draw); in 30% of the experiments (thorough: all) the recovering process is stopped too at a drawn effect (kill, 2 in 10 shutdown, 3 in 10 inside a commit callback when it commits) and recovered again; non-trivial = kill between a Flush and the broadcast/commit it covers, between OnCommit and the prune flush, stop while the node is proposer of its current round, shutdown with a commit callback still ahead in the call, stop inside a commit callback (held hand-over or persist error), or second stop during replay"
 
 func TestPropCrashRecovery(t *testing.T) {
 	crashRecovery(t, stats.Budget{Quick: 300, Thorough: 500}, false)
@@ -480,10 +556,13 @@ func crashRecovery(t *testing.T, budget stats.Budget, fewPoints bool) {
 			if stats.Thorough() && !fewPoints {
 				chosen = pts
 			} else {
-				var nts []int
+				var nts, cstops []int
 				for i, p := range pts {
 					if len(p.nt) > 0 {
 						nts = append(nts, i)
+					}
+					if p.commitStop() {
+						cstops = append(cstops, i)
 					}
 				}
 				used := map[int]bool{}
@@ -501,7 +580,10 @@ func crashRecovery(t *testing.T, budget stats.Budget, fewPoints bool) {
 				for i := range all {
 					all[i] = i
 				}
-				for i := 0; i < 5; i++ {
+				// one stop inside a commit callback (held hand-over + shutdown, or persist error) per case
+				// whose script commits at all, then non-trivial points of any kind, then any point
+				pick(cstops, "commit-stop-point")
+				for i := 0; i < 4; i++ {
 					pick(nts, "nontrivial-point")
 				}
 				for len(chosen) < 10 && len(used) < len(pts) {
@@ -528,7 +610,26 @@ func crashRecovery(t *testing.T, budget stats.Budget, fewPoints bool) {
 							}
 							hi = min(n, nr+2)
 						}
-						return &crashSpec{k: rapid.IntRange(1, hi).Draw(rt, "second-crash-k"), after: rapid.Bool().Draw(rt, "second-crash-after")}
+						sp := &crashSpec{k: rapid.IntRange(1, hi).Draw(rt, "second-crash-k"), after: rapid.Bool().Draw(rt, "second-crash-after")}
+						// how the recovering process ends: mostly a kill; else an orderly shutdown at that effect,
+						// or - when it commits (typically while replaying) - a stop inside a commit callback
+						var ocb []int
+						for i, e := range rc.effects {
+							if e.kind == 'O' {
+								ocb = append(ocb, i+1)
+							}
+						}
+						switch x := rapid.IntRange(0, 9).Draw(rt, "second-stop-kind"); {
+						case x < 2:
+							sp.kind, sp.cancelPersists = stopCancel, rapid.Bool().Draw(rt, "second-cancel-persists")
+						case x < 5 && len(ocb) > 0:
+							sp.k, sp.after = ocb[rapid.IntRange(0, len(ocb)-1).Draw(rt, "second-commit-stop")], false
+							sp.kind = stopHold
+							if rapid.Bool().Draw(rt, "second-commit-fails") {
+								sp.kind = stopFail
+							}
+						}
+						return sp
 					}
 				}
 				ck.trial(p, func(idx int) bool {
